@@ -749,6 +749,59 @@ pub fn run(ctx: &mut Ctx, replay_path: Option<&str>) {
             None => ctx.count("wide_credential.not_issued"),
         }
     }
+    // claim sets whose member names spell each other's paths in some notation (JSON Pointer, dotted, bracketed), and the same
+    // claims issued again and again on ONE instance while only the holder key (or nothing) changes between the calls: every
+    // salt is a fresh draw all the same
+    #[cfg(not(feature = "mock"))]
+    {
+        let mut sets: Vec<Value> = notable_claims(now).into_iter().map(|(c, _)| c).collect();
+        for extra in [
+            json!({"address/city": "x", "address": {"city": "y", "geo/0": 1, "geo": [2]}, "tags/0": 1, "tags": [5, {"0": 6}], "a~1b": 1, "a/b": 2, "a~0b": 3, "a~b": 4}),
+            json!({"a.b": 1, "a": {"b": 2, "b.c": 3, "b": {"c": 4}}, "k[0]": 1, "k": [2, [3]], "k[0][0]": 4, "$.a": 5, "": {"": {"": 1}}, "/": {"/": 2}, "//": 3}),
+            json!({"x": {"y": {"z": 1}}, "x/y/z": 1, "x.y.z": 1, "x/y": {"z": 1}, "x": {"y/z": 1}, "same": "v", "same2": "v", "list": ["v", "v", "v"]}),
+        ] {
+            let mut c = extra.clone();
+            c["iss"] = json!("https://issuer.example");
+            c["exp"] = json!(now + 100000);
+            sets.push(c);
+        }
+        let mut salts_seen: HashMap<String, String> = HashMap::new();
+        let mut problems_all: Vec<Value> = vec![];
+        let holders = [None, Some(KeyId::HolderEc), Some(KeyId::HolderEc2), Some(KeyId::HolderEd), Some(KeyId::HolderEc), None, None, Some(KeyId::HolderEd)];
+        for (si, claims) in sets.iter().enumerate() {
+            let calls: Vec<IssueArgs> = holders.iter().enumerate().map(|(k, h)| IssueArgs { claims: claims.clone(), strategy: Strategy::All, holder: *h, decoy: si % 2 == 0, fmt: if (si + k / 4) % 2 == 0 { Fmt::Compact } else { Fmt::Json }, key: KeyId::Hmac1, alg: Some("HS256".into()), queue: None }).collect();
+            let mut shared = sd_jwt_rs::SDJWTIssuer::new(KeyId::Hmac1.encoding(), Some("HS256".into()));
+            for (k, a) in calls.iter().enumerate() {
+                let res = issue_on(&mut shared, a);
+                ctx.impl_calls += 1;
+                ctx.evaluations += 1;
+                ctx.oracle_checks += 1;
+                ctx.count("named_paths_and_key_changes.issuances");
+                let here = format!("claim set {} call {}", si, k);
+                match res.out.ok() {
+                    Some(issued) => {
+                        let chk = check_issuance(a.fmt, issued, &res.salts);
+                        for p in chk.problems.iter().take(3) {
+                            problems_all.push(json!({"where": here, "problem": p}));
+                        }
+                        for s in &res.salts {
+                            if let Some(first) = salts_seen.insert(s.clone(), here.clone()) {
+                                problems_all.push(json!({"where": here, "problem": format!("the salt {:?} was already drawn in {}", s, first)}));
+                            }
+                        }
+                    }
+                    None => ctx.count("named_paths_and_key_changes.not_issued"),
+                }
+            }
+        }
+        let case = json!({"kind": "named-paths-and-key-changes", "claim_sets": sets.len(), "calls_per_instance": holders.len()});
+        if problems_all.is_empty() {
+            ctx.nontrivial(&case);
+        } else {
+            ctx.violation("oracle", "history", &format!("{}", problems_all[0]["problem"].as_str().unwrap_or("salt problem")), case, json!({"problems": problems_all.iter().take(8).collect::<Vec<_>>(), "count": problems_all.len()}),
+                          json!("every salt a fresh draw used once; every disclosure's SHA-256 embedded exactly once"));
+        }
+    }
     // very many issuer INSTANCES in one process, one small credential each (whatever numbers or seeds the instances must not
     // come round again): all their salts pairwise distinct, and distinct from everything seen in the runs above
     #[cfg(not(feature = "mock"))]
